@@ -115,6 +115,15 @@ where
 
         // read layer commitments from the channel and use them to build a list of alphas
         let layer_commitments = channel.read_fri_layer_commitments();
+        // there must be one commitment per folding step plus the commitment to the remainder;
+        // otherwise the verification procedure would run past the layers the channel holds
+        let num_fri_layers = options.num_fri_layers(domain_size);
+        if layer_commitments.len() != num_fri_layers + 1 {
+            return Err(VerifierError::NumLayerCommitmentsMismatch(
+                num_fri_layers + 1,
+                layer_commitments.len(),
+            ));
+        }
         let mut layer_alphas = Vec::with_capacity(layer_commitments.len());
         let mut max_degree_plus_1 = max_poly_degree + 1;
         for (depth, commitment) in layer_commitments.iter().enumerate() {
